@@ -11,6 +11,6 @@ for j in K.all_jobs():
     if sub in j.tag and (j.contract.ensures or getattr(j.contract,'rtc_ensures',None)) and (j.lang == 'cy' or getattr(j.contract,'vectors',False) or getattr(j.contract,'rtc_py',False)):
         r = rtc._rtc_worker((j, src, cnt, 0, ()))
         v = r.pop('violated')
-        print(j.tag, {k: r[k] for k in ('cases','evaluated','holds','nonterminating','raised','inapplicable','wall') if k in r}, 'skipped:', list(r['skipped'].values())[:2], 'ERR' if r['error'] else '')
+        print(j.tag, {k: r[k] for k in ('cases','evaluated','holds','nonterminating','raised','inapplicable','wall') if k in r}, 'skipped:', list(r['skipped'].values())[:2], 'ERR' if r['error'] else '', r.get('raised_example') or '')
         if r['error']: print(r['error'])
         for x in v[:2]: print('   VIOL', x['clause'][:100], x['detail'][:200], json.dumps(x.get('inputs'))[:300])
